@@ -6,7 +6,7 @@ HOOKS = {
     "enable": "go1.26.8 test -tags verif (harness module /verif/harness, replace github.com/tsuna/gohbase => /repo); "
               "if the hook files are absent from /repo the driver injects copies with -overlay",
     "baseline_off_cmd": "cd /repo && go test -vet=off -count=1 -timeout 25m ./...",
-    "source_commits": ["4fc7d7a"],
+    "source_commits": ["4fc7d7a", "eb3db2f"],
     "add_only": True,
 }
 
@@ -89,6 +89,9 @@ prop("C15", "exploration",
      [
          {"test": "TestC15_Compression", "quick": {"checks": 8000, "timeout": 200},
           "thorough": {"checks": 80000, "shards": 16, "timeout": 1500}},
+         {"test": "TestC15_SharedCompressor", "quick": {"checks": 1500, "shards": 4, "timeout": 300},
+          "thorough": {"checks": 8000, "shards": 16, "timeout": 1500}},
+         {"test": "TestC15_SharedCompressor", "tag": "race", "thorough": {"checks": 300, "shards": 4, "timeout": 1500, "race": True}},
          {"fuzz": "FuzzC15Decompress", "thorough": {"fuzztime": "90s", "workers": 8, "timeout": 400}},
      ],
      ["raw snappy has no checksum: a damaged stream that is still a conforming stream may decode to what it denotes"])
